@@ -4,7 +4,7 @@
 \* macro result completions with ok_lvl / err_lvl / err-mapper each absent or present
 \* {ok,okD,err,errD,errM,errMD}; 4 clock scripts (forwards, backwards, no reading at start / at
 \* completion), both filter verdicts, forms none/plain/setup/result{,_o,_e}/resultM{,_m}/guard/
-\* newspan, operations inside and after the frame; terminals also while the thread is unwinding.
+\* newspan, operations inside and after the frame; terminals also while the thread is unwinding; attribute carriers fn / async fn / sync block.
 SPECIFICATION Spec
 CONSTANTS
     Mdls = {"m1"}
@@ -16,6 +16,7 @@ CONSTANTS
     Scripts <- MC_ScriptsQuick
     Forms = {"none", "plain", "setup", "result", "result_o", "result_e", "resultM", "resultM_m", "guard", "newspan"}
     Frames = {"in", "out"}
+    Carriers = {"fn", "async_fn", "block"}
     MaxLen = 0
     F2Bug = FALSE
     Emit = TRUE
